@@ -81,7 +81,7 @@ def gen_cases(tier, seed):
             for nwbits in range(1 << k):
                 add(k=k, nw=[i for i in range(k) if nwbits >> i & 1], logger=[False] * k, suball=[False] * k, rst=[],
                     dest="b", type=T, mon_nw=False, npub=1)
-        extra = 700
+        extra = 3000
     for _ in range(extra):
         k = rng.randint(1, 4)
         add(k=k, nw=[i for i in range(k) if rng.random() < 0.4], logger=[rng.random() < 0.3 for _ in range(k)],
